@@ -35,7 +35,7 @@ MANIFEST = dict(
          'taken from equality modulo that and from "the packet carrying the complemented sum verifies". ICMP: the library only knows type/code/checksum, the rest '
          'of the layouts (echo id/seq, NS/NA target) is bound only through Payload(). DNS: Setheader can only emit a standard query with RD. An MSS option of 0 is '
          'outside the encoder grammar (the library treats it as malformed and stops parsing). Parse results on malformed strings are implementation-defined; a '
-         'difference there is reported as model drift, a panic always as a violation.')
+         'difference there is reported as model drift, a panic always as a violation. Round 8: SACK blocks into limited option space (0..6 blocks into 0..45 bytes): the reference table SackFit is evaluated by TLC in CodecVec; the encoder must write exactly the leading blocks that fit, nothing outside its buffer, and the parser must recover them.')
 
 # several JVMs run side by side here; the default of one GC thread per core only adds contention
 os.environ.setdefault('JDK_JAVA_OPTIONS', '-XX:ParallelGCThreads=2')
